@@ -484,6 +484,212 @@ fn explore_first_use(bound: usize, st: &mut Stats) -> Option<(Vec<usize>, String
     None
 }
 
+// ---------------------------------------------------------------------------
+// intercepted synchronisation: the harness built against a copy of the crate whose std::sync / std::thread /
+// thread_local! uses resolve to shuttle's types (scripts/c16-intercept-build.sh).  Every lock, atomic and Once
+// operation inside the crate is then a scheduling point.  Process-wide state (statics) would survive from one
+// execution to the next inside one process, so every schedule runs in a fresh process: the parent owns the
+// deviation-bounded search, a child replays one choice prefix, then takes the default (stay on the running
+// thread) and reports the width of every scheduling point.
+
+lazy_static::lazy_static! {
+    static ref LONG_A: String = format!("{{name: people[0].name, first: people[0], pad: '{}'}}.name", "a".repeat(70));
+    static ref LONG_B: String = format!("{{name: people[1].name, other: people[1], pad: '{}'}}.name", "b".repeat(70));
+    static ref LONG_C: String = format!("length(people) == `2` && '{}' || 'never'", "c".repeat(70));
+}
+
+pub fn intercept_scenarios() -> Vec<Scenario> {
+    let people = json!({"people": [{"name": "first-person"}, {"name": "second-person"}]});
+    let mut v = vec![
+        Scenario {
+            max_bound: None,
+            name: "compile-distinct-long-expressions",
+            exprs: vec![],
+            custom: vec![],
+            inputs: vec![people.clone()],
+            threads: vec![
+                vec![Op::CompileSearch(LONG_A.as_str(), 0), Op::CompileSearch(LONG_B.as_str(), 0), Op::CompileSearch(LONG_A.as_str(), 0)],
+                vec![Op::CompileSearch(LONG_B.as_str(), 0), Op::CompileSearch(LONG_C.as_str(), 0), Op::CompileSearch(LONG_B.as_str(), 0)],
+            ],
+        },
+        Scenario {
+            max_bound: None,
+            name: "to_number-on-distinct-long-strings",
+            exprs: vec!["to_number(@)", "[to_number(@), to_number(@)]"],
+            custom: vec![],
+            inputs: vec![json!("1234567890123456.25"), json!("6543210987654321.75"), json!("not-a-number-but-long-enough")],
+            threads: vec![
+                vec![Op::Search(0, 0), Op::Search(0, 0), Op::Search(1, 0)],
+                vec![Op::Search(0, 1), Op::Search(0, 1), Op::Search(0, 2), Op::Search(0, 1)],
+            ],
+        },
+        Scenario {
+            max_bound: None,
+            name: "sort-and-by-functions-on-shared-input",
+            exprs: vec!["sort_by(a, &k)[*].v", "max_by(a, &k).v", "sort(@)", "map(&to_string(@), @)"],
+            custom: vec![],
+            inputs: vec![json!({"a": [{"k": 2, "v": "x"}, {"k": 1, "v": "y"}, {"k": 3, "v": "z"}]}), json!([3, 1, 2])],
+            threads: vec![vec![Op::Search(0, 0), Op::Search(2, 1), Op::Search(1, 0)], vec![Op::Search(1, 0), Op::Search(3, 1), Op::Search(0, 0)]],
+        },
+    ];
+    // the hook-level scenarios once more, now with the crate's own synchronisation visible
+    for s in scenarios(Tier::Quick) {
+        v.push(s);
+    }
+    v
+}
+
+/// child: one execution of one scenario in this (fresh) process
+pub fn intercept_child(name: &str, mode: &str) -> i32 {
+    install_hooks();
+    LABELS.store(mask_of(&["search-enter", "compile", "call", "error"]), Ordering::Relaxed);
+    let scs: &'static Vec<Scenario> = leak(intercept_scenarios());
+    let s = match scs.iter().find(|s| s.name == name) {
+        Some(s) => s,
+        None => return 2,
+    };
+    let sequential_mode = mode == "seq";
+    let choices: Vec<usize> = if sequential_mode { vec![] } else { mode.split(',').filter_map(|x| x.parse().ok()).collect() };
+    let widths: &'static Mutex<Vec<usize>> = leak(Mutex::new(Vec::new()));
+    struct Rec(PbDfs, &'static Mutex<Vec<usize>>);
+    impl Scheduler for Rec {
+        fn new_execution(&mut self) -> Option<Schedule> {
+            self.0.new_execution()
+        }
+        fn next_task(&mut self, r: &[&Task], c: Option<TaskId>, y: bool) -> Option<TaskId> {
+            self.1.lock().unwrap().push(r.len());
+            self.0.next_task(r, c, y)
+        }
+        fn next_u64(&mut self) -> u64 {
+            0
+        }
+    }
+    let obs: &'static Mutex<String> = leak(Mutex::new(String::new()));
+    let runner = shuttle::Runner::new(Rec(PbDfs::replay(choices), widths), config());
+    runner.run(move || {
+        // everything that touches the crate happens inside the execution (intercepted primitives need one)
+        let sh = build_shared(s);
+        let got: Vec<Vec<String>> = if sequential_mode {
+            s.threads.iter().map(|ops| ops.iter().map(|op| run_op(&sh, op)).collect()).collect()
+        } else {
+            ARMED.store(true, Ordering::Relaxed);
+            let hs: Vec<_> = s
+                .threads
+                .iter()
+                .map(|ops| {
+                    let sh = sh.clone();
+                    let ops = ops.clone();
+                    shuttle::thread::spawn(move || ops.iter().map(|op| run_op(&sh, op)).collect::<Vec<String>>())
+                })
+                .collect();
+            let g = hs.into_iter().map(|h| h.join().unwrap()).collect();
+            ARMED.store(false, Ordering::Relaxed);
+            g
+        };
+        let unchanged = sh.inputs.iter().zip(sh.input_images.iter()).all(|(r, img)| var_to_value(r) == *img);
+        *obs.lock().unwrap() = format!("{:?} inputs_unchanged={}", got, unchanged);
+    });
+    println!("WIDTHS {:?}", widths.lock().unwrap());
+    println!("TRACE {:?}", TRACE.lock().unwrap());
+    println!("OBS {}", obs.lock().unwrap());
+    0
+}
+
+pub struct InterceptResult {
+    pub name: String,
+    pub processes: u64,
+    pub scheduling_points: u64,
+    pub max_width: usize,
+    pub distinct_outcomes: usize,
+    pub capped: bool,
+    pub failure: Option<(Vec<usize>, String, String)>,
+    pub machinery: Option<String>,
+}
+
+/// parent: deviation-bounded search over the schedules of one scenario, one fresh child process per schedule,
+/// level by level (all prefixes of a level in parallel)
+pub fn explore_intercepted(bin: &str, s: &Scenario, bound: usize, cap: u64) -> InterceptResult {
+    use rayon::prelude::*;
+    let run = |mode: &str| -> Result<(Vec<usize>, Vec<usize>, String), String> {
+        let o = std::process::Command::new(bin).arg("C16-intercept-child").arg(s.name).arg(mode).output().map_err(|e| e.to_string())?;
+        let t = String::from_utf8_lossy(&o.stdout).to_string();
+        let parse = |tag: &str| -> Vec<usize> {
+            t.lines().find(|l| l.starts_with(tag)).map(|l| l[tag.len()..].trim().trim_matches(|c| c == '[' || c == ']').split(',').filter_map(|x| x.trim().parse().ok()).collect()).unwrap_or_default()
+        };
+        match t.lines().find(|l| l.starts_with("OBS ")) {
+            Some(l) => Ok((parse("WIDTHS "), parse("TRACE "), l[4..].to_string())),
+            // the child died: a panic inside the explored code (or the explorer) -- reported with its last words
+            None => Err(format!("child status {:?}: {}", o.status.code(), String::from_utf8_lossy(&o.stderr).lines().rev().find(|l| !l.trim().is_empty()).unwrap_or("").chars().take(300).collect::<String>())),
+        }
+    };
+    let mut res = InterceptResult { name: s.name.to_string(), processes: 0, scheduling_points: 0, max_width: 0, distinct_outcomes: 0, capped: false, failure: None, machinery: None };
+    let expected = match run("seq") {
+        Ok((_, _, o)) => o,
+        Err(e) => {
+            res.machinery = Some(format!("sequential baseline of '{}' did not run: {}", s.name, e));
+            return res;
+        }
+    };
+    res.processes += 1;
+    let mut outcomes = std::collections::BTreeSet::new();
+    let mut frontier: Vec<Vec<usize>> = vec![vec![]];
+    while !frontier.is_empty() {
+        if res.processes + frontier.len() as u64 > cap {
+            res.capped = true;
+            frontier.truncate((cap.saturating_sub(res.processes)) as usize);
+            if frontier.is_empty() {
+                break;
+            }
+        }
+        let results: Vec<(Vec<usize>, Result<(Vec<usize>, Vec<usize>, String), String>)> = frontier
+            .par_iter()
+            .map(|p| {
+                let arg = if p.is_empty() { "-".to_string() } else { p.iter().map(|c| c.to_string()).collect::<Vec<_>>().join(",") };
+                (p.clone(), run(&arg))
+            })
+            .collect();
+        let mut next = Vec::new();
+        for (prefix, r) in results {
+            res.processes += 1;
+            let (widths, trace, obs) = match r {
+                Ok(x) => x,
+                Err(e) => {
+                    // a crash under a particular schedule is an observation that differs from the sequential one
+                    if res.failure.is_none() {
+                        res.failure = Some((prefix.clone(), expected.clone(), format!("the execution died: {}", e)));
+                    }
+                    continue;
+                }
+            };
+            if prefix.is_empty() {
+                res.scheduling_points = widths.len() as u64;
+            }
+            res.max_width = res.max_width.max(widths.iter().cloned().max().unwrap_or(0));
+            outcomes.insert(obs.clone());
+            if obs != expected && res.failure.is_none() {
+                res.failure = Some((trace.clone(), expected.clone(), obs.clone()));
+            }
+            let devs = prefix.iter().filter(|c| **c != 0).count();
+            if devs >= bound {
+                continue;
+            }
+            for i in prefix.len()..widths.len() {
+                for alt in 1..widths[i] {
+                    let mut p: Vec<usize> = trace[..i].to_vec();
+                    p.push(alt);
+                    next.push(p);
+                }
+            }
+        }
+        if res.failure.is_some() {
+            break;
+        }
+        frontier = next;
+    }
+    res.distinct_outcomes = outcomes.len();
+    res
+}
+
 /// supporting only: the same bodies free-running on real OS threads
 fn real_threads_smoke(s: &'static Scenario, rounds: usize, copies: usize) -> bool {
     let expected: Vec<Vec<String>> = sequential(s).into_iter().cycle().take(s.threads.len() * copies).collect();
@@ -690,6 +896,44 @@ pub fn run(tier: Tier, obligations: u64) -> i32 {
             st.violate(Violation { key: "C16/real-threads/stress".into(), check: "real-threads".into(), case: json!({"kind": "real-threads-stress", "threads": th, "iterations": it}), expected: "every thread observes its sequential results".into(), actual: b });
         }
     }
+    // intercepted synchronisation (fresh process per schedule); the binary is built by scripts/check-C16.sh
+    let mut intercept_table = serde_json::Map::new();
+    match std::env::var("JPV_INTERCEPT_BIN") {
+        Ok(bin) if std::path::Path::new(&bin).exists() => {
+            let (bound, cap) = tier.pick((3usize, 20_000u64), (5usize, 400_000u64));
+            for s in intercept_scenarios() {
+                let r = explore_intercepted(&bin, &s, s.max_bound.map_or(bound, |m| m.min(bound)), cap);
+                if let Some(m) = &r.machinery {
+                    eprintln!("MACHINERY: {}", m);
+                    return 2;
+                }
+                st.states += r.processes;
+                st.validated += r.processes;
+                st.evaluations += r.processes;
+                st.nontrivial += r.processes.saturating_sub(2);
+                st.transitions += r.scheduling_points * r.processes;
+                st.count("intercepted_fresh_process_schedules", r.processes);
+                st.capped |= r.capped;
+                st.outcome(&format!("intercepted {}: {} distinct outcome vector(s)", r.name, r.distinct_outcomes));
+                intercept_table.insert(r.name.clone(), json!({"deviation_bound": bound, "schedules": r.processes, "scheduling_points_on_the_default_schedule": r.scheduling_points, "max_runnable": r.max_width, "distinct_outcome_vectors": r.distinct_outcomes, "capped": r.capped}));
+                if let Some((choices, want, got)) = r.failure {
+                    st.violate(Violation {
+                        key: format!("C16/intercepted-schedule/{}", r.name),
+                        check: "intercepted-schedules".into(),
+                        case: json!({"kind": "intercepted-schedule", "scenario": r.name, "choices": choices}),
+                        expected: want,
+                        actual: got,
+                    });
+                }
+            }
+        }
+        _ => {
+            let why = std::env::var("JPV_INTERCEPT_NOTE").unwrap_or_else(|_| "JPV_INTERCEPT_BIN not set".into());
+            println!("note: the intercepted-synchronisation leg was not run ({})", why);
+            st.count("intercepted_leg_not_available", 1);
+            rep.assumptions.push(format!("intercepted-synchronisation leg not run: {}", why));
+        }
+    }
     // first use of the default runtime
     install_hooks();
     if let Some((trace, what)) = explore_first_use(tier.pick(2, 3), &mut st) {
@@ -702,13 +946,13 @@ pub fn run(tier: Tier, obligations: u64) -> i32 {
     rep.guard("pre-empting schedules were explored", st.nontrivial > 100);
     rep.guard("fresh-process first-use schedules were explored", fu > 5);
     rep.guard("type-level obligations discharged", obligations > 0);
-    rep.rule = "leg 1 (compile time): Send + Sync obligations on the public types under --features sync and the library under -F unsafe_code; leg 2: for each scenario (2-3 threads on shared Arc<Expression> / shared Arc inputs, chosen to collide: failing calls at different offsets, by-functions with nested calls, a shared literal, a custom runtime whose functions yield, compile inside threads, deep expressions whose evaluations overlap) every schedule with at most c pre-emptions for c = 0,1,2(,3) over the hook points {search-enter, interpret, call, validate, error, get_function, compile}, plus unbounded DFS over the coarse points {search-enter, call, error}; first use of DEFAULT_RUNTIME: one fresh process per schedule with bounded deviations. Oracle: every thread's observations (values / full error structs) equal the sequential run; inputs unchanged. states = executions; transitions = scheduling points hit; non-trivial = executions with at least one pre-emption allowed".into();
-    rep.bounds = json!({"preemption_bounds": bounds, "scenarios": table});
-    rep.assumptions = vec![
-        "steps between two hook points are atomic to the explorer; std atomics and Arc counts are not modelled by shuttle: a race confined to one such step is excluded only by leg 1 (no unsafe code + Send/Sync bounds)".into(),
+    rep.rule = "leg 1 (compile time): Send + Sync obligations on the public types under --features sync and the library under -F unsafe_code; leg 2: for each scenario (2-3 threads on shared Arc<Expression> / shared Arc inputs, chosen to collide: failing calls at different offsets, by-functions with nested calls, a shared literal, a custom runtime whose functions yield, compile inside threads, deep expressions whose evaluations overlap) every schedule with at most c pre-emptions for c = 0,1,2(,3) over the hook points {search-enter, interpret, call, validate, error, get_function, compile}, plus unbounded DFS over the coarse points {search-enter, call, error}; first use of DEFAULT_RUNTIME: one fresh process per schedule with bounded deviations; leg 2c (intercepted synchronisation): the harness built against a rewritten copy of the crate in which std::sync / std::thread / thread_local! resolve to shuttle's types, so that every lock, atomic and Once operation inside the crate is a scheduling point -- 9 scenarios (concurrent compiles of different long expressions, to_number on different long strings, sorts / by-functions on shared input, the hook-level scenarios again), every schedule with at most d deviations from staying on the running thread, one fresh process per schedule. Oracle: every thread's observations (values / full error structs) equal the sequential run; inputs unchanged. states = executions; transitions = scheduling points hit; non-trivial = executions with at least one pre-emption allowed".into();
+    rep.bounds = json!({"preemption_bounds": bounds, "scenarios": table, "intercepted": intercept_table});
+    rep.assumptions.extend(vec![
+        "leg 2: steps between two hook points are atomic to the explorer; leg 2c: steps between two synchronisation operations of the crate are; Arc counts are std's and memory orderings weaker than sequential consistency are not modelled by shuttle".into(),
         "the lazy initialiser of DEFAULT_RUNTIME contains no hook point (std::sync::Once is trusted)".into(),
         "a capped unbounded DFS on the coarse labels is reported as capped; the pre-emption bounded explorations are complete unless 'capped' says otherwise".into(),
-    ];
+    ]);
     rep.exhaustive = true;
     rep.stats = st;
     rep.finish()
@@ -732,6 +976,18 @@ pub fn replay(case: &Value) -> Option<(String, bool)> {
                 Some(g) => (format!("divergent observations: {}", g), true),
                 None => ("schedule gives the sequential observations".into(), false),
             })
+        }
+        "intercepted-schedule" => {
+            let bin = std::env::var("JPV_INTERCEPT_BIN").ok()?;
+            let name = case["scenario"].as_str()?;
+            let choices: Vec<String> = case["choices"].as_array()?.iter().map(|v| v.as_u64().unwrap().to_string()).collect();
+            let run = |mode: &str| -> String {
+                let o = std::process::Command::new(&bin).arg("C16-intercept-child").arg(name).arg(mode).output().expect("spawn");
+                String::from_utf8_lossy(&o.stdout).lines().find(|l| l.starts_with("OBS ")).map(|l| l[4..].to_string()).unwrap_or_else(|| format!("the execution died (status {:?})", o.status.code()))
+            };
+            let want = run("seq");
+            let got = run(&if choices.is_empty() { "-".to_string() } else { choices.join(",") });
+            Some((format!("sequential: {} ; under the recorded schedule: {}", want, got), want != got))
         }
         "real-threads-stress" => {
             let r = parallel_stress(case["threads"].as_u64()? as usize, case["iterations"].as_u64()? as usize);
